@@ -70,8 +70,9 @@ ASSUMPTIONS = [
 REQUIRED = {"precedence.attribute": {"quick": 20000, "thorough": 1500000}, "bool.file_x_cmdline_pairs": {"quick": 200, "thorough": 200},
             "paths.relative_to_config_file": {"quick": 150, "thorough": 8000}, "list.order": {"quick": 400, "thorough": 20000},
             "userdata.define_parsing": {"quick": 2000, "thorough": 100000}, "userdata.cmdline_overrides_file": {"quick": 300, "thorough": 15000},
-            "userdata.getters": {"quick": 1500, "thorough": 60000}, "userdata.namespace_view": {"quick": 500, "thorough": 20000}, "couplings.documented": {"quick": 100, "thorough": 4000}}
-REQUIRED_SEEN = {"define_value_shape": ["different_quote_characters_at_the_ends"], "namespace_name_shape": ["name_starts_with_namespace_text"], "config_file_kind": ["behave.ini", ".behaverc", "setup.cfg", "tox.ini", "pyproject.toml"],
+            "userdata.getters": {"quick": 1500, "thorough": 60000}, "userdata.namespace_view": {"quick": 500, "thorough": 20000}, "precedence.options_around_a_bare_color": {"quick": 200, "thorough": 8000}, "couplings.documented": {"quick": 100, "thorough": 4000}}
+REQUIRED_SEEN = {"bare_color_position": ["first", "middle", "last"], "namespace_view_made": ["before_the_data", "after_the_data"],
+                 "define_value_shape": ["different_quote_characters_at_the_ends"], "namespace_name_shape": ["name_starts_with_namespace_text"], "config_file_kind": ["behave.ini", ".behaverc", "setup.cfg", "tox.ini", "pyproject.toml"],
                  "config_file_place": ["cwd", "home"], "source_deciding": ["cmdline", "file", "default"]}
 EXHAUSTIVE = True
 EXHAUSTIVE_SCOPE = "all (file value in {absent,true,false}) x (command-line flag in {absent,positive,negative}) pairs for every boolean option"
@@ -519,6 +520,19 @@ def userdata_cases(mon, sc, rng, n):
         merged = dict(fdata)
         merged.update(defines)
         view = UserDataNamespace(ns, config.userdata)
+        if i % 3 == 0:
+            # the other order (documented: config.update_userdata(...) in before_all): the view is made while there is no user data
+            # at all, the data arrives later -- the view is a VIEW
+            sc.clear_files()
+            config, err = make_config([])
+            if config is None or dict(config.userdata):
+                continue
+            view = UserDataNamespace(ns, config.userdata)
+            config.update_userdata(dict(merged))
+            case = dict(case, order="view made on empty user data, data added afterwards")
+            mon.seen("namespace_view_made", "before_the_data")
+        else:
+            mon.seen("namespace_view_made", "after_the_data")
         for k in short:
             full = "%s.%s" % (ns, k)
             want = (full in merged, merged.get(full, "dflt"), int(merged[full]) if full in merged else -1)
@@ -593,6 +607,34 @@ def couplings(mon, sc, rng, n):
                                                         stop=config.stop, format=config.format, dry_run=config.dry_run, summary=config.summary,
                                                         tags=str(config.tags)))
 
+def bare_color(mon, sc, rng, n):
+    """'--color' without a value (documented) at any position of the command line: the options around it are in force as
+    written (over what the configuration file says), nothing of them becomes a path."""
+    for i in range(n):
+        sc.clear_files()
+        with open(os.path.join(sc.cwd, "behave.ini"), "w", encoding="utf-8") as fh:
+            fh.write("[behave]\nstdout_capture = true\nshow_timings = true\nstop = false\ncolor = never\n")
+        others = [["--no-capture"], ["--no-timings"], ["--stop"], ["-D", "x=1"], ["--define", "y=2"]]
+        rng.shuffle(others)
+        others = others[:rng.randint(0, 4)]
+        pos = rng.randint(0, len(others))
+        args = [a for grp in others[:pos] for a in grp] + ["--color"] + [a for grp in others[pos:] for a in grp]
+        config, err = make_config(args)
+        case = {"kind": "bare --color", "args": args}
+        mon.case(("bare-color", tuple(args)), True)
+        mon.seen("bare_color_position", "last" if pos == len(others) else ("first" if pos == 0 else "middle"))
+        if config is None:
+            mon.check("precedence.options_around_a_bare_color", False, dict(case=case, error=err))
+            continue
+        flat = [a for grp in others for a in grp]
+        want = {"stdout_capture": "--no-capture" not in flat, "show_timings": "--no-timings" not in flat, "stop": "--stop" in flat,
+                "userdata": dict(([("x", "1")] if "x=1" in flat else []) + ([("y", "2")] if "y=2" in flat else [])), "paths": []}
+        got = {"stdout_capture": config.stdout_capture, "show_timings": config.show_timings, "stop": config.stop,
+               "userdata": dict(config.userdata), "paths": list(config.paths)}
+        mon.check("precedence.options_around_a_bare_color", got == want and config.color != "never",
+                  lambda: dict(case=case, got=got, want=want, color=config.color))
+
+
 def console_formatter(mon, sc, rng, n):
     """The formatter that ends up on the console when the configuration file names formatters (with output files) and the
     command line does not: the default formatter -- and --wip / --steps-catalog on the command line decide what that is."""
@@ -647,6 +689,7 @@ def run(spec, mon):
         for i in range(90 if tier == "quick" else 5500):
             random_case(mon, sc, rng, sample=(i == 3 and spec["shard"] == 0))
         userdata_cases(mon, sc, rng, 250 if tier == "quick" else 8000)
+        bare_color(mon, sc, rng, 20 if tier == "quick" else 600)
         couplings(mon, sc, rng, 10 if tier == "quick" else 300)
         console_formatter(mon, sc, rng, 12 if tier == "quick" else 300)
     finally:
